@@ -22,6 +22,9 @@ else:
     HARNESS = os.path.join(VERIF, "harness")
     OUTDIR = VERIF
 GOENV = dict(os.environ, GOFLAGS="-mod=mod", GOPROXY="off", GOSUMDB="off", GOTOOLCHAIN="local")
+# VERIF_COVER=1 (tools/coverage.py only, never a registered check): the workers and the gotree binary are built with
+# Go's statement-coverage instrumentation of every package of the repository; GOCOVERDIR receives the counters.
+COVER_FLAGS = ["-cover", "-coverpkg=github.com/evolbioinfo/gotree/..."] if os.environ.get("VERIF_COVER") else []
 COQ_DIRS = ["Base", "Spec", "Model", "Gen", "Proofs", "Properties", "Judge"]
 
 def sh(cmd, cwd=None, timeout=1800, env=None):
@@ -82,7 +85,7 @@ def _build_all(clean, verbose, only=None):
     st["worker_errors"] = {}
     def build_worker(p):
         files = shared + [f for f in allgo if f.startswith(p.lower())]
-        return p, sh(["go", "build", "-tags", "verif", "-o", os.path.join(BUILD, "worker-" + p)] + files, cwd=wdir, env=GOENV)
+        return p, sh(["go", "build", "-tags", "verif"] + COVER_FLAGS + ["-o", os.path.join(BUILD, "worker-" + p)] + files, cwd=wdir, env=GOENV)
     from concurrent.futures import ThreadPoolExecutor
     with ThreadPoolExecutor(max_workers=8) as ex:
         for p, (rc, out) in ex.map(build_worker, props):
